@@ -62,6 +62,12 @@ impl Arena {
     pub fn bytes(&self) -> &[u8] {
         &self.data
     }
+
+    /// Verification hook: real capacity of the backing allocation, in bytes.
+    #[cfg(feature = "_verif_hooks")]
+    pub fn verif_capacity(&self) -> usize {
+        self.data.capacity()
+    }
 }
 
 #[cfg(test)]
